@@ -9,10 +9,13 @@ else
   git apply "$P" || exit 3
 fi
 cd /verif
+# the runs below rewrite evidence/<id>.json with what they saw on the *patched* tree: keep the committed files
+B=$(mktemp -d /tmp/evidence-keep.XXXXXX); cp -a evidence/. "$B"/
 for c in "$@"; do
   out=$(VERIF_RUNS=${SEED_RUNS:-20000} ./check "$c" quick 2>&1)
   rc=$?
   echo "== $c rc=$rc :: $(echo "$out" | grep -E '^violation:' | head -1 | cut -c1-300)"
   echo "$out" | grep -E "abandoned:|HARNESS" | cut -c1-300
 done
+cp -a "$B"/. /verif/evidence/; rm -rf "$B"
 cd /repo && git checkout -- . && git status --short | head
